@@ -153,6 +153,8 @@ func main() {
 	cases.Flush()
 	sum.CaseFiles = append(sum.CaseFiles, cases.Files...)
 	p, h := bufioSourceID()
+	// also as a distribution key, so that it reaches evidence/C12.json (further_harnesses[].input_distribution)
+	sum.Distribution["ran_against_"+runtime.Version()+"_bufio.go_sha256_"+h] = sum.Evaluations
 	sum.Notes = append(sum.Notes, "go version "+runtime.Version(), "bufio source "+p+" sha256 "+h,
 		fmt.Sprintf("wall time %.1fs", time.Since(t0).Seconds()))
 	sum.Write(*out)
